@@ -34,6 +34,7 @@ class Cfg:
         self.leaf_kinds = None
         self.comp_kinds = None
         self.fatal_actions = True
+        self.failing_actions = True  # actions / conditions that raise ParseException
         for k, v in kw.items():
             setattr(self, k, v)
 
@@ -274,10 +275,12 @@ class ProgGen:
         r, c = self.rng, self.cfg
         I = self.info
         if r.random() < c.actions:
-            tags = [["none"], ["const", "K"], ["drop"], ["rev"], ["dup"], ["app", "Z"], ["app", "Z"], ["failP"]]
+            tags = [["none"], ["const", "K"], ["drop"], ["rev"], ["dup"], ["app", "Z"], ["app", "Z"]]
+            if c.failing_actions:
+                tags.append(["failP"])
             if c.fatal_actions:
                 tags.append(["failF"])
-            if r.random() < 0.6:
+            if r.random() < 0.6 or not c.failing_actions:
                 self.add(["_", "action", v, r.choice(tags)], None)
             else:
                 self.add(["_", "condition", v, r.random() < 0.5, {"fatal": c.fatal_actions and r.random() < 0.3}], None)
